@@ -344,8 +344,17 @@ relative_harnesses! {
 }
 
 // ---------------------------------------------------------------- C15: partial order
+// same interval: same kind and same bounds (written out: the oracle must not lean on the PartialEq under test)
+fn same_interval(a: &Interval<i8>, b: &Interval<i8>) -> bool {
+    match (a, b) {
+        (Interval::TwoSided(l1, h1), Interval::TwoSided(l2, h2)) => l1 == l2 && h1 == h2,
+        (Interval::UpperOneSided(l1), Interval::UpperOneSided(l2)) => l1 == l2,
+        (Interval::LowerOneSided(h1), Interval::LowerOneSided(h2)) => h1 == h2,
+        _ => false,
+    }
+}
 fn expected_cmp(a: &Interval<i8>, b: &Interval<i8>) -> Option<Ordering> {
-    if a == b {
+    if same_interval(a, b) {
         Some(Ordering::Equal)
     } else if matches!((hi_of(a), lo_of(b)), (Some(h), Some(l)) if h <= l) {
         Some(Ordering::Less)
@@ -361,7 +370,8 @@ fn c15_partial_cmp_matches_spec() {
     let b = any_interval_i8(any_kind());
     let r = a.partial_cmp(&b);
     assert!(r == expected_cmp(&a, &b));
-    // Equal exactly when ==
+    // Equal exactly when == (and == is "same kind, same bounds")
+    assert!((a == b) == same_interval(&a, &b));
     assert!((r == Some(Ordering::Equal)) == (a == b));
     // a < b exactly when b > a
     assert!((r == Some(Ordering::Less)) == (b.partial_cmp(&a) == Some(Ordering::Greater)));
